@@ -36,7 +36,8 @@ EVIDENCE = dict(
     rule='case = one operation sequence (<= 25 operations over 4 keys) on one store configuration, with the result of every '
          'operation as observed on the real store; non-trivial when it contains a dump followed by at least one observing '
          'operation (load/can_load/list/remove/remove_many/cleanup/pack/reopen); distinct = distinct (configuration, operations) '
-         'tuples.  Frame cases = (value, compress_numpy) pairs.',
+         'tuples; besides the random sequences, one round-trip sequence (dump, load, pack, reopen, load, list, remove) per '
+         '(value of the universe, configuration).  Frame cases = (value, compress_numpy) pairs.',
     explanation='Coq refinement theorems (file/dict/redis bookkeeping vs. a finite map, all operation sequences) + framing '
                 'round-trip under codec hypotheses; differential evaluation of the model against the real stores; '
                 'direct comparison of the real stores with a Python dict; sampled codec hypotheses',
@@ -48,6 +49,29 @@ NPY_MAGIC = b'\x93NUMPY'
 class Derived(np.ndarray):
     """an ndarray subclass: type(v) != np.ndarray, so it is pickled, never np.save'd"""
     pass
+
+
+class Tagged(np.ndarray):
+    """an ndarray subclass that carries an attribute (the InfoArray of the NumPy documentation, made picklable):
+    written as a bare array it would lose both its type and the attribute"""
+
+    def __new__(cls, input_array, info=None):
+        obj = np.asarray(input_array).view(cls)
+        obj.info = info
+        return obj
+
+    def __array_finalize__(self, obj):
+        if obj is None:
+            return
+        self.info = getattr(obj, 'info', None)
+
+    def __reduce__(self):
+        r = super().__reduce__()
+        return (r[0], r[1], r[2] + (self.info,))
+
+    def __setstate__(self, state):
+        self.info = state[-1]
+        super().__setstate__(state[:-1])
 
 
 class Stub:
@@ -95,11 +119,20 @@ def canon(v):
     if t is dict:
         return ('dict', tuple(sorted(((canon(k), canon(x)) for k, x in v.items()), key=repr)))
     if isinstance(v, np.ndarray):
-        if v.dtype.hasobject:
-            content = tuple(canon(x) for x in v.ravel(order='C').tolist())
+        extra = ()
+        data = v
+        if isinstance(v, np.ma.MaskedArray):
+            # the data under the mask, the mask itself, the fill value
+            data = np.asarray(v.data)
+            extra = ('masked', _dg(np.ma.getmaskarray(v).tobytes(order='C')), canon(v.fill_value), bool(v.hardmask))
+        elif t is not np.ndarray:
+            # a subclass: whatever it carries besides the buffer (attributes of the instance)
+            extra = tuple(sorted((k, canon(x)) for k, x in getattr(v, '__dict__', {}).items()))
+        if data.dtype.hasobject:
+            content = tuple(canon(x) for x in np.asarray(data).ravel(order='C').tolist())
         else:
-            content = _dg(v.tobytes(order='C'))
-        return ('ndarray', t.__module__ + '.' + t.__qualname__, v.dtype.str, repr(v.dtype), tuple(v.shape), content)
+            content = _dg(np.asarray(data).tobytes(order='C'))
+        return ('ndarray', t.__module__ + '.' + t.__qualname__, v.dtype.str, repr(v.dtype), tuple(v.shape), content) + extra
     if isinstance(v, np.generic):
         return ('npscalar', t.__module__ + '.' + t.__qualname__, v.dtype.str, _dg(v.tobytes()))
     return ('obj', t.__module__ + '.' + t.__qualname__, repr(v))
@@ -236,7 +269,23 @@ def build_universe():
     add('arr-view-broadcast', np.broadcast_to(np.array([1, 2, 3]), (4, 3)), A)
     add('arr-3d-transposed', np.arange(24).reshape((2, 3, 4)).transpose((2, 0, 1)), A)
     add('arr-1MB', np.arange(131072, dtype=np.int64), 0.12)
+    # instances of ndarray SUBCLASSES: never the raw .npy / np.save form (that would turn them into bare arrays)
     add('arr-derived', np.arange(4).view(Derived), A)
+    add('arr-derived-2d-fortran', np.asfortranarray(base).view(Derived), A)
+    add('arr-derived-empty', np.zeros((0, 2)).view(Derived), A)
+    add('arr-derived-0d', np.array(2.5).view(Derived), A)
+    add('arr-derived-object', np.array([1, None, 'x'], dtype=object).view(Derived), A)
+    add('arr-tagged', Tagged(np.arange(6, dtype=np.int32).reshape((2, 3)), info={'unit': 'nm', 'scale': (1, 2.5)}), A)
+    add('arr-tagged-float', Tagged(np.array([0.5, -1.5]), info='calibrated'), A)
+    add('arr-matrix', np.matrix([[1, 2], [3, 4]]), A)
+    add('arr-matrix-float-row', np.matrix([[0.5, 1.5, -2.0]]), A)
+    add('arr-recarray', np.rec.array([(1, 2.5), (-3, 0.0)], dtype=[('a', '<i4'), ('b', '<f8')]), A)
+    add('arr-recarray-empty', np.rec.array(np.zeros(0, dtype=[('x', '<i2'), ('y', 'S2')])), A)
+    add('arr-masked', np.ma.MaskedArray(np.arange(5.), mask=[False, True, False, False, True]), A)
+    add('arr-masked-nomask', np.ma.MaskedArray(np.arange(4, dtype=np.int64)), A)
+    add('arr-masked-2d-fill', np.ma.MaskedArray(np.arange(6).reshape((2, 3)), mask=[[1, 0, 0], [0, 0, 1]], fill_value=-7), A)
+    add('arr-chararray', np.char.array(['ab', 'c', '']), A)
+    add('list-with-subclasses', [np.matrix([[1]]), Tagged(np.arange(2), info=3)])
     # NumPy scalars
     add('np.int64(7)', np.int64(7))
     add('np.uint8(255)', np.uint8(255))
@@ -711,23 +760,43 @@ def sample_codec_hypotheses(ck, U):
 def frame_cases(ck, U):
     cases, meta = [], []
     for compress in (False, True):
+        cfgname = 'file+compress_numpy' if compress else 'file'
         with jugrun.scratch_dir('jugv_c06f_') as scratch:
             st = file_store(scratch + '/jd', compress_numpy=compress)
             for i, e in enumerate(U.entries):
                 k = KEYS[i % len(KEYS)]
-                st.dump(e['value'], k)
-                with open(st._getfname(k), 'rb') as f:
-                    fb = f.read()
+                try:
+                    st.dump(e['value'], k)
+                    with open(st._getfname(k), 'rb') as f:
+                        fb = f.read()
+                    back = U.id_of(file_store(scratch + '/jd', compress_numpy=compress).load(k))
+                except Exception:
+                    fb, back = None, -3
+                if back != i:
+                    # re-run as a two-step sequence on a fresh store: the standard, replayable report
+                    ops = [('dump', 1, i), ('load', 1), ('reopen',), ('load', 1)]
+                    obs, done, shape, cfg, fail = run_sequence('file', dict(compress=compress, pack=False), ops, U)
+                    if fail is not None:
+                        ck.violation({'config': cfgname, 'compress_numpy': compress, 'ops': describe_ops(done, U),
+                                      'observed': [list(o) for o in obs], 'final_shape': shape, 'kind': 'impl-violation',
+                                      'what': what_of('file', fail), 'first_failure': fail})
+                if fb is None:
+                    continue
                 ff = frame_of_file_bytes(fb)
                 sf = frame_of_file_bytes(encmod.encode(e['value']))
+                # size prediction (it feeds the model's pack threshold): raw image for an exact ndarray written raw,
+                # encode() otherwise; a raw file for a value that is not an exact ndarray has no prediction - the
+                # frame comparison below reports it
                 want = e['size_raw'] if ff == 1 else e['size_enc']
-                if len(fb) != want:
+                if want is not None and len(fb) != want:
                     ck.violation({'kind': 'correspondence', 'what': 'harness size oracle differs from the file written',
                                   'value': e['name'], 'compress_numpy': compress, 'file_size': len(fb), 'predicted': want})
                 cases.append('(%s, %s, %s, %s, %s)' % (boollit(compress), boollit(e['isnone']), boollit(e['isarr']),
                                                        natlit(ff), natlit(sf)))
                 meta.append({'value': e['name'], 'compress_numpy': compress, 'file_frame': ff, 'stream_frame': sf})
                 ck.count('frame:%s' % {0: 'empty', 1: 'raw-npy', 2: 'zlib-P', 3: 'zlib-N'}.get(ff, 'other'))
+                if isinstance(e['value'], np.ndarray) and not e['isarr']:
+                    ck.count('frame of an ndarray-subclass instance:%s' % {1: 'raw-npy', 2: 'zlib-P', 3: 'zlib-N'}.get(ff, 'other'))
     fails = ck.cases('frames', 'From JugV Require Import Model.Store.', 'bool * bool * bool * nat * nat',
                      'frame_case_ok', cases)
     for i in (fails or []):
@@ -773,6 +842,21 @@ def run(ck):
         if opts.get('compress', 0) is None:
             opts['compress'] = bool(comp)
         jobs.append((name, backend, opts, parse_ops(desc, U), True))
+    # every value of the universe through every configuration once: dump, read back, pack, reopen, read back
+    for vi in range(len(U.entries)):
+        for name, backend, opts0 in CONFIGS:
+            for comp in ((False, True) if opts0.get('compress', 0) is None else (None,)):
+                opts = dict(opts0)
+                if comp is not None:
+                    opts['compress'] = comp
+                ops = [('dump', 1, vi), ('load', 1), ('can_load', 1)]
+                if opts.get('pack'):
+                    ops += [('pack',), ('load', 1)]
+                if name != 'dict':
+                    ops += [('reopen',), ('load', 1)]
+                ops += [('list',), ('remove', 1), ('can_load', 1)]
+                jobs.append((name, backend, opts, ops, True))
+    nfixed = len(jobs)
     for i in range(nseq):
         name, backend, opts = CONFIGS[i % len(CONFIGS)]
         opts = dict(opts)
@@ -798,13 +882,14 @@ def run(ck):
                 ck.count('load:' + o[0])
             if op[0] == 'dump':
                 e = U.entries[op[2]]
-                ck.count('value:' + ('None' if e['isnone'] else 'ndarray' if e['isarr'] else 'other')
+                ck.count('value:' + ('None' if e['isnone'] else 'ndarray' if e['isarr'] else
+                                     'ndarray-subclass' if isinstance(e['value'], np.ndarray) else 'other')
                          + (':small' if (e['small_raw'] if (e['isarr'] and not opts.get('compress', True)) else e['small_enc']) else ':large'))
         if shape is not None and shape[0]:
             ck.count('final:has-packed-keys')
         first_dump = next((i for i, op in enumerate(done) if op[0] == 'dump'), None)
         ck.distinct((name, opts.get('compress'), tuple(map(repr, done))), first_dump is not None and first_dump < len(done) - 1)
-    for idx in (len(CORPUS), len(CORPUS) + 2, len(jobs) // 2, len(jobs) - 1):
+    for idx in (nfixed, nfixed + 2, (nfixed + len(jobs)) // 2, len(jobs) - 1):
         if idx < len(meta):
             ck.sample({'kind': 'sequence', **meta[idx]})
 
